@@ -906,6 +906,84 @@ func (h *H) dirtyCase(reg *registry, id uint32, seed uint64, wantCoq bool) {
 	}
 }
 
+// ---------- string / bytes fields cut inside their framing ----------
+
+// stringTails: for every top-level string and []byte field of a constructor, a value in which
+// that field holds distinctive content of length n; the field is located in the encoding by
+// its content. The input is then cut at every position from the last content byte to the end
+// of the 4-byte padding (and, for short content, re-framed in the long 0xfe form first, which
+// decoders must accept): an input that ends inside a field's padding is an error, not a panic.
+func (h *H) stringTails(reg *registry, id uint32, r *hx.Rand, lens []int, coqChance int) {
+	t := reflect.TypeOf(reg.ctors[id]()).Elem()
+	nl := nullable(t)
+	for i := 0; i < t.NumField(); i++ {
+		ft := t.Field(i).Type
+		isStr := ft.Kind() == reflect.String
+		isBytes := ft.Kind() == reflect.Slice && ft.Elem().Kind() == reflect.Uint8
+		if !isStr && !isBytes {
+			continue
+		}
+		for _, n := range lens {
+			g := &gen{r: r.Fork(), reg: reg, canonical: true}
+			o := reg.ctors[id]()
+			sv := reflect.ValueOf(o).Elem()
+			for j := 0; j < t.NumField(); j++ {
+				if !nl[t.Field(j).Name] && j != i {
+					g.fillValue(sv.Field(j), 3)
+				}
+			}
+			content := r.Bytes(n)
+			for k := range content { // distinctive and never a valid header byte
+				content[k] = 0xA0 | (content[k] & 0x1f)
+			}
+			if isStr {
+				sv.Field(i).SetString(string(content))
+			} else {
+				sv.Field(i).SetBytes(content)
+			}
+			g.canonicalize(reflect.ValueOf(o), 0)
+			e := goEncode(o, kBoxed)
+			if e.err != nil || e.panicked {
+				continue
+			}
+			at := bytes.Index(e.bytes, content)
+			if at < 1 {
+				continue
+			}
+			var frames [][]byte // encodings in which the field is framed short and/or long
+			var ends []int      // offset just after the content in each
+			switch {
+			case n > 253 && at >= 4 && e.bytes[at-4] == 0xfe:
+				frames, ends = append(frames, e.bytes), append(ends, at+n)
+			case n <= 253 && int(e.bytes[at-1]) == n:
+				frames, ends = append(frames, e.bytes), append(ends, at+n)
+				// the same value with the long-form header: 0xfe, 24-bit length, content, padding
+				long := append([]byte(nil), e.bytes[:at-1]...)
+				long = append(long, 0xfe, byte(n), byte(n>>8), byte(n>>16))
+				long = append(long, content...)
+				for (len(long)-(at-1))%4 != 0 {
+					long = append(long, 0)
+				}
+				padShort := (4 - (1+n)%4) % 4
+				long = append(long, e.bytes[at+n+padShort:]...)
+				frames, ends = append(frames, long), append(ends, at-1+4+n)
+			default:
+				continue
+			}
+			for fi, data := range frames {
+				end := ends[fi]
+				padded := end
+				for padded%4 != 0 { // fields start 4-aligned in a boxed encoding
+					padded++
+				}
+				for cut := end - 1; cut <= padded && cut <= len(data); cut++ {
+					h.bytesCase(reg, kBoxed, id, nil, data[:cut], "string-tail", r.Chance(1, coqChance), 0)
+				}
+			}
+		}
+	}
+}
+
 // ---------- vector count sites ----------
 
 // A site is a top-level vector field of a constructor together with a valid encoding in which
@@ -1363,6 +1441,24 @@ func main() {
 			bound = 1<<20 + 64*int64(len(data))
 		}
 		h.bytesCase(reg, meta.Kind, meta.ID, nil, data, "mutant:"+how, i%mstride == 0, bound)
+	}
+	// every top-level string / bytes field: input cut between the last content byte and the end
+	// of the padding, short and long framing (lengths around the 253/254 switch, and 64 KiB)
+	{
+		k := 0
+		for _, reg := range h.regs {
+			for _, id := range reg.ids {
+				k++
+				switch {
+				case c.Thorough():
+					h.stringTails(reg, id, c.Rng, []int{1, 2, 3, 5, 253, 254, 255, 256, 257, 65535, 65537}, 200)
+				case reg.sch != 0:
+					h.stringTails(reg, id, c.Rng, []int{2, 5, 253, 254, 257}, 25)
+				case k%3 == 0:
+					h.stringTails(reg, id, c.Rng, []int{5, 254 + k%4}, 100)
+				}
+			}
+		}
 	}
 	// every top-level vector field of every constructor: boundary counts (negative, around the
 	// preallocation limit, maximal) and, for a sample, a huge count in front of a LARGE input
